@@ -376,6 +376,20 @@ def dedupAdj : List Int → List Int
 def K5 (tr : Trace) (endT : Int) : Bool :=
   (endT :: dedupAdj ((tr.filter relevantK5).map (·.t))).all fun T => k5At (tr.filter fun e => e.t ≤ T)
 
+/-! ### the lookup started from `Added` -/
+
+/-- completeness of every positive answer (the "+ SRV, TXT, addresses" of K1 and K4, for *every* send): whenever a host sends
+PTR(`s`) with TTL > 0, SRV, TXT and an address of the target travel in the same datagram -/
+def K6full (tr : Trace) : Bool :=
+  (sends tr).all fun sd => (ptrSvcs sd.items).all fun s => !pos s sd.items || posFull s sd.items
+
+def addeds (tr : Trace) : List (Int × Br × Svc) :=
+  tr.filterMap fun e => match e.e with | .added b s => some (e.t, b, s) | _ => none
+
+/-- the causal clause of K5 for Added: the callback fires no earlier than the host processed a PTR(`s`) with TTL > 0 -/
+def K5added (tr : Trace) : Bool :=
+  (addeds tr).all fun a => (dlvs tr).any fun e => e.h == a.2.1.host && e.t ≤ a.1 && pos a.2.2 e.items
+
 /-! ### the conclusion -/
 
 def activeBrowsers (tr : Trace) : List Br := ((browses tr).filter fun b => neverClosed tr b.2.host).map (·.2)
